@@ -20,6 +20,7 @@ EXPLANATION = (
     "C02.7 the hand-off pairs every cleared waiting bit with its wake (writer: notify bump >=Release then wake>=1 on the notify word; readers: wake i32::MAX on the state word; fall through to readers when no writer was woken), "
     "C02.8 sleepers set/observe their waiting bit first, writers sample the notify sequence (>=Acquire) before re-checking state and sleep on that sample, waits sit in retry loops, "
     "C02.9 try_read/try_write reach no blocking call; plus futex helper/flavour (shared with C01). "
+    "C02.10 type-level witnesses: neither guard is Send, a read guard gives no mutable access (no DerefMut), the protected value is private; "
     "NOT decided: lost-wake-up freedom and termination over all interleavings, writer/reader starvation.")
 ASSUMPTIONS = ["Linux futex semantics", "Rust memory model (acquire RMW reading from a release sequence synchronises)",
                "Atomic::fetch_update stores exactly the closure's Some(new) with a CAS on the value passed to the closure (std semantics)",
@@ -37,6 +38,9 @@ def run(ck, progs, tier):
     for cfgname, prog in progs.items():
         ck.set_config(prog)
         run_one(ck, prog)
+    # type-level witnesses (compile_fail doctests with compiling twins) against the public API of the tree under analysis
+    from ..engine import witness
+    witness.check(ck, ck.repo, "C02", "C02.10")
 
 
 def K(prog, name):
